@@ -160,27 +160,32 @@ Definition named_pair (level : nat) (sw sr : schema) : rres bool :=
   | _, _ => ROk false
   end.
 
-Definition match_schemas_body (we re : env) (mt : nat -> schema -> schema -> rres bool) (level : nat) (w r : schema)
-  : rres schema :=
-  let given := r in                 (* what is returned: the reader schema as given (a reference stays a name) *)
-  let w := deref1 we w in
-  let r := deref1 re r in
-  if is_list w then ROk given      (* writer union: checked in read_union once the branch is known *)
+(* match_schemas once both schemas are dereferenced; [None] = "the reader schema as given", [Some b] = a branch of the
+   reader union *)
+Definition match_schemas_core (mt : nat -> schema -> schema -> rres bool) (level : nat) (w r : schema)
+  : rres (option schema) :=
+  if is_list w then ROk None      (* writer union: checked in read_union once the branch is known *)
   else match r with
   | SUnion bs =>
       let+ x := reader_branch (fun l => mt l w) bs in
-      match x with Some b => ROk b | None => RErrResolution end
+      match x with Some b => ROk (Some b) | None => RErrResolution end
   | _ =>
     let wt := tag_of w in
     let rt := tag_of r in
+    let verdict (b : rres bool) : rres (option schema) := let+ x := b in if x then ROk None else RErrResolution in
     match strip w, strip r with
-    | SMap wv, SMap rv => check_match (mt 2%nat wv rv) given
-    | SArray wi, SArray ri => check_match (mt 2%nat wi ri) given
+    | SMap wv, SMap rv => verdict (mt 2%nat wv rv)
+    | SArray wi, SArray ri => verdict (mt 2%nat wi ri)
     | sw, sr =>
-      if in_named_types wt && in_named_types rt then check_match (named_pair level sw sr) given
-      else if match_type_names wt rt level then ROk given else RErrResolution
+      if in_named_types wt && in_named_types rt then verdict (named_pair level sw sr)
+      else verdict (ROk (match_type_names wt rt level))
     end
   end.
+
+Definition match_schemas_body (we re : env) (mt : nat -> schema -> schema -> rres bool) (level : nat) (w r : schema)
+  : rres schema :=
+  let+ o := match_schemas_core mt level (deref1 we w) (deref1 re r) in
+  ROk (match o with Some b => b | None => r end).   (* a by-name reference is returned as the name it is *)
 
 Fixpoint match_types (f : nat) (we re : env) (level : nat) (w r : schema) {struct f} : rres bool :=
   match f with
@@ -927,16 +932,20 @@ Fixpoint resolve (we re : env) (w r : schema) (a : aval) {struct a} : rres pyval
 Definition is_union (s : schema) : bool := match s with SUnion _ => true | _ => false end.
 
 
-(** schemas without by-name references and annotations; unions are not nested *)
+Definition is_prim (s : schema) : bool :=
+  match s with SNull | SBool | SInt | SLong | SFloat | SDouble | SBytes | SString => true | _ => false end.
+
+(** schemas without by-name references; annotations only as the dict form of a primitive ({"type": "int", ...});
+    unions are not nested *)
 Fixpoint inline (s : schema) : bool :=
   match s with
-  | SRef _ | SAnnot _ _ => false
+  | SRef _ => false
+  | SAnnot _ p => is_prim p
   | SArray s | SMap s => inline s
   | SUnion bs => forallb (fun b => negb (is_union b) && inline b) bs
   | SRecord _ _ fs => forallb (fun f => inline (ftype f)) fs
   | _ => true
   end.
-
 
 (** positions instead of schemas: which reader branch is picked *)
 Fixpoint find_idx {A} (P : A -> bool) (l : list A) : option nat :=
@@ -1004,6 +1013,74 @@ Fixpoint agree (we re : env) (w r : schema) {struct w} : bool :=
       end
   end.
 
+(** *** the zone with by-name references (recursive types included): the same conditions, followed through the
+    named-type tables; [k] bounds the depth to which the two schemas are followed (the height of the value) *)
+Definition named_core (d : schema) : bool :=
+  match d with SFixed _ _ _ | SEnum _ _ _ _ | SRecord _ _ _ => true | _ => false end.
+
+(* every reference resolves to a named type; annotations only as dict-form primitives; unions not nested *)
+Fixpoint scoped (e : env) (s : schema) : bool :=
+  match s with
+  | SRef n => match lookup e n with Some d => named_core d | None => false end
+  | SAnnot _ p => is_prim p
+  | SArray s | SMap s => scoped e s
+  | SUnion bs => forallb (fun b => negb (is_union b) && scoped e b) bs
+  | SRecord _ _ fs => forallb (fun f => scoped e (ftype f)) fs
+  | _ => true
+  end.
+Definition env_scoped (e : env) : bool := forallb (fun nd => named_core (snd nd) && scoped e (snd nd)) e.
+
+Fixpoint agreen (k : nat) (we re : env) (w r : schema) {struct k} : bool :=
+  match k with
+  | O => false
+  | S k =>
+    let rd := deref1 re r in                     (* the reader schema, dereferenced *)
+    let node (w' b : schema) : bool :=          (* a writer schema that is no union / reference meets the reader schema b *)
+      match w', b with
+      | SEnum _ _ _ _, SEnum _ _ _ (Some []) => false
+      | SArray wi, SArray ri => agreen k we re wi ri
+      | SMap wv, SMap rv => agreen k we re wv rv
+      | SRecord _ _ wfs, SRecord _ _ rfs =>
+          forallb (fun wf => match reader_field rfs (fname wf) with
+                             | Some rf => agreen k we re (ftype wf) (ftype rf)
+                             | None => true end) wfs
+          && defaults_ok re rfs
+      | _, _ => true
+      end in
+    truthy_ok r &&
+    match w with
+    | SRef nm =>
+        match lookup we nm with
+        | None => false
+        | Some wd =>      (* the definition meets the reader schema one level down *)
+            match rd with
+            | SUnion rbs => match spec_idx we re w rbs with
+                            | Some j => match nth_error rbs j with Some b => agreen k we re wd (deref1 re b) | None => true end
+                            | None => true
+                            end
+            | _ => if smatch we re true w r then agreen k we re wd rd else true
+            end
+        end
+    | SUnion wbs =>
+        forallb (fun wb =>
+          match rd with
+          | SUnion rbs => match spec_idx we re wb rbs with
+                          | Some j => match nth_error rbs j with Some b => agreen k we re wb b | None => true end
+                          | None => true
+                          end
+          | _ => if smatch we re true wb r then agreen k we re wb rd else true
+          end) wbs
+    | _ =>
+        match rd with
+        | SUnion rbs => match spec_idx we re w rbs with
+                        | Some j => match nth_error rbs j with Some b => node w (deref1 re b) | None => true end
+                        | None => true
+                        end
+        | _ => if smatch we re true w r then node w rd else true
+        end
+    end
+  end.
+
 (** text protocol *)
 Local Open Scope string_scope.
 Definition show_rres (x : rres (pyval * bytes)) : string :=
@@ -1022,6 +1099,7 @@ Definition show_rval (x : rres pyval) : string :=
   end.
 
 Definition RFUEL : nat := 400.
+Definition ZDEPTH : nat := 32.   (* depth to which the zone with references is evaluated for the statistics *)
 
 (* implementation model on the bytes ; specification on the value decoded under the writer schema *)
 Definition run_resolve (o : ropts) (we re : env) (w : schema) (R : option schema) (r : schema) (bs : bytes) : string :=
@@ -1030,4 +1108,11 @@ Definition run_resolve (o : ropts) (we re : env) (w : schema) (R : option schema
   | Ok (a, _) => show_rval (resolve we re w r a)
   | Err => "EO"
   | OutOfFuel => "FUEL"
-  end ++ ";" ++ (if inline w && inline r && agree we re w r then "Z1" else "Z0").
+  end ++ ";" ++ (if inline w && inline r && agree we re w r then "Z1"
+                 else if env_scoped we && env_scoped re && scoped we w && scoped re r && agreen ZDEPTH we re w r then "Z2"
+                 else "Z0").
+
+(* the same on the bytes of an explicit layout of the value (any block partition), followed by [suffix] *)
+Definition run_resolve_layout (o : ropts) (we re : env) (w : schema) (R : option schema) (r : schema) (l : lval) (suffix : bytes)
+  : string :=
+  "W:" ++ tohex (wire_l l) ++ ";" ++ run_resolve o we re w R r (wire_l l ++ suffix)%list.
